@@ -25,6 +25,24 @@ pub fn quiet_catch<T>(f: impl FnOnce() -> T + panic::UnwindSafe) -> Result<T, St
     })
 }
 
+/// Run `f` from a destructor that executes while the thread is unwinding from a panic
+/// (`std::thread::panicking()` is true inside `f`), catching a panic `f` itself raises there.
+pub fn in_unwinding<T>(f: impl FnOnce() -> T) -> Result<T, String> {
+    struct OnDrop<'a, T, F: FnOnce() -> T>(Option<F>, &'a mut Option<Result<T, String>>);
+    impl<T, F: FnOnce() -> T> Drop for OnDrop<'_, T, F> {
+        fn drop(&mut self) {
+            let f = self.0.take().unwrap();
+            *self.1 = Some(quiet_catch(panic::AssertUnwindSafe(f)));
+        }
+    }
+    let mut slot: Option<Result<T, String>> = None;
+    let _ = panic::catch_unwind(panic::AssertUnwindSafe(|| {
+        let _d = OnDrop(Some(f), &mut slot);
+        panic!("a body panics; its tear-down runs the operation");
+    }));
+    slot.expect("the destructor ran")
+}
+
 pub fn silence_panics() {
     panic::set_hook(Box::new(|_| {}));
 }
